@@ -77,7 +77,7 @@ def one(ctx, scenario, seed, tags, dump_every=None, window=None):
     txt = txt.replace("From Model Require Import Obs.", "From Model Require Import Obs.\nFrom Corr Require Import Chain.", 1)
     tl = "[" + "; ".join(str(t) for t in tags) + "]"
     txt += ("Definition REP := Eval vm_compute in report %s cfg_%s chain_%s obs_%s.\n" % (tl, ident, ident, ident))
-    for f in ("cr_full", "cr_proj", "cr_nonneg", "cr_applied", "cr_rates_immutable"):
+    for f in ("cr_full", "cr_proj", "cr_nonneg", "cr_applied", "cr_rates_immutable", "cr_history_replays"):
         txt += "Definition V_%s := Eval vm_compute in %s REP.\nPrint V_%s.\n" % (f, f, f)
     open(vfile, "w").write(txt)
     rc, so, se = ctx.run(["coqc"] + ctx.coq_qargs() + ["-w", "-inexact-float", vfile], cwd=d, timeout=1500, check=False, quiet=True)
@@ -90,7 +90,7 @@ def one(ctx, scenario, seed, tags, dump_every=None, window=None):
     if rc != 0:
         return {"scenario": scenario, "seed": seed, "stats": stats, "error": "coqc failed on the emitted chain: %s" % (so + se)[-1500:]}
     res = {"scenario": scenario, "seed": seed, "stats": stats, "file_bytes": len(txt)}
-    for f in ("cr_full", "cr_proj", "cr_nonneg", "cr_applied", "cr_rates_immutable"):
+    for f in ("cr_full", "cr_proj", "cr_nonneg", "cr_applied", "cr_rates_immutable", "cr_history_replays"):
         m = re.search(r"V_%s\s*=\s*(.*?)\n\s*:\s" % f, so, re.S)
         if not m:
             res["error"] = "cannot parse coqc output for %s" % f
